@@ -74,6 +74,7 @@ type W struct {
 	Caps       []string
 	progress   atomic.Int64
 	curCase    atomic.Value // func() any
+	journal    string
 	mu         sync.Mutex
 }
 
@@ -189,8 +190,18 @@ func (w *W) Cap(note string) {
 }
 
 // SetCase registers a description of the case about to run (used when the
-// worker hangs or crashes).
-func (w *W) SetCase(f func() any) { w.curCase.Store(f) }
+// worker hangs or crashes). In journal mode (a re-run of a shard whose worker
+// died with an unrecoverable runtime error) the case is also written to disk
+// before it runs, so that the coordinator can attribute the crash.
+func (w *W) SetCase(f func() any) {
+	w.curCase.Store(f)
+	if w.journal != "" {
+		b, err := json.Marshal(f())
+		if err == nil {
+			os.WriteFile(w.journal, b, 0o644)
+		}
+	}
+}
 
 // Param returns a harness parameter passed with -p k=v.
 func (w *W) Param(k, def string) string {
@@ -313,6 +324,7 @@ func runWorker(spec *Spec, prop, tier string, shard, n int, seed int64, out, out
 	if dl > 0 {
 		w.deadline = time.Unix(dl, 0)
 	}
+	w.journal = os.Getenv("VERIF_JOURNAL")
 	hang := spec.HangSeconds
 	if hang == 0 {
 		hang = 60
@@ -550,6 +562,14 @@ func coordinate(spec *Spec, prop, tier string, n int, seed int64, params map[str
 	}
 	for k, r := range results {
 		if r.out == nil {
+			// the worker process died (stack overflow, out of memory, concurrent map
+			// access ...: errors recover() cannot catch). Re-run the shard with a
+			// journal to learn the case, then confirm it crashes in fresh processes.
+			if v := attributeCrash(spec, prop, tier, k, n, seed, params, tmp, r.stderr); v != nil {
+				addViolation(v)
+				tot.Caps = append(tot.Caps, fmt.Sprintf("shard %d stopped at a crashing case", k))
+				continue
+			}
 			fmt.Fprintf(os.Stderr, "HARNESS-ERROR: worker %d produced no result (exit %d, %v)\n%s\n", k, r.code, r.err, tail(r.stderr, 4000))
 			harnessErr = true
 			continue
@@ -720,6 +740,76 @@ func coordinate(spec *Spec, prop, tier string, n int, seed int64, params map[str
 		return 1
 	}
 	return 0
+}
+
+func crashClass(stderr string) string {
+	for _, c := range []string{"stack overflow", "concurrent map", "out of memory", "all goroutines are asleep", "unexpected signal", "fatal error"} {
+		if strings.Contains(stderr, c) {
+			return strings.ReplaceAll(c, " ", "-")
+		}
+	}
+	return "process-died"
+}
+
+// attributeCrash re-runs shard k with a case journal and, if it dies again,
+// replays the journalled case three times in fresh processes. Only a case that
+// kills the process every time becomes a violation.
+func attributeCrash(spec *Spec, prop, tier string, k, n int, seed int64, params map[string]string, tmp, firstStderr string) *Violation {
+	journal := filepath.Join(tmp, fmt.Sprintf("journal%d.json", k))
+	args := []string{"-prop", prop, "-tier", tier, "-worker", strconv.Itoa(k), "-n", strconv.Itoa(n), "-out", filepath.Join(tmp, fmt.Sprintf("rerun%d.json", k)), "-seed", strconv.FormatInt(seed, 10)}
+	for pk, pv := range params {
+		args = append(args, "-p", pk+"="+pv)
+	}
+	cmd := exec.Command(os.Args[0], args...)
+	cmd.Env = append(os.Environ(), "GOMAXPROCS=2", "VERIF_JOURNAL="+journal)
+	var eb bytes.Buffer
+	cmd.Stderr = &tailWriter{max: 64 << 10, buf: &eb}
+	done := make(chan error, 1)
+	if err := cmd.Start(); err != nil {
+		return nil
+	}
+	go func() { done <- cmd.Wait() }()
+	select {
+	case err := <-done:
+		if err == nil {
+			return nil // did not crash again: not attributable
+		}
+	case <-time.After(20 * time.Minute):
+		cmd.Process.Kill()
+		<-done
+		return nil
+	}
+	c, err := os.ReadFile(journal)
+	if err != nil || len(c) == 0 {
+		return nil
+	}
+	rf, _ := json.Marshal(map[string]any{"property": prop, "case": json.RawMessage(c)})
+	path := filepath.Join(tmp, fmt.Sprintf("crash%d.json", k))
+	os.WriteFile(path, rf, 0o644)
+	stderr := eb.String()
+	for i := 0; i < 3; i++ {
+		a := []string{"-prop", prop, "-tier", tier, "-replay", path}
+		for pk, pv := range params {
+			a = append(a, "-p", pk+"="+pv)
+		}
+		rc := exec.Command(os.Args[0], a...)
+		var b2 bytes.Buffer
+		rc.Stderr = &tailWriter{max: 64 << 10, buf: &b2}
+		err := rc.Run()
+		code := 0
+		if rc.ProcessState != nil {
+			code = rc.ProcessState.ExitCode()
+		}
+		if err == nil || code == 0 || code == 1 {
+			// the case returns when run alone, but the shard died at it twice:
+			// state carried over from the preceding cases is involved
+			class := crashClass(stderr)
+			return &Violation{Signature: prop + "/crash/" + class + "/after-preceding-cases", Detail: "the worker process died (" + class + ") at this case in two runs of the shard, but the case returns when replayed alone: state carried between evaluations is involved\n" + tail(stderr, 1500), Case: c, Count: 1}
+		}
+		stderr = b2.String()
+	}
+	class := crashClass(stderr)
+	return &Violation{Signature: prop + "/crash/" + class + "/" + hangSig(c)[:6], Detail: "the case kills the process (" + class + ") in 3 of 3 fresh replays:\n" + tail(stderr, 1500), Case: c, Count: 1}
 }
 
 func hangSig(c json.RawMessage) string {
